@@ -184,6 +184,10 @@ type TypeOpts struct {
 	NoCorpus bool
 	// Unsupported also generates kinds and map key types encoding/json rejects.
 	Unsupported bool
+	// Durations also draws time.Duration leaves (encoded as a quoted string by this
+	// package and as an integer by encoding/json: only for checks whose oracle is not
+	// the standard library's bytes).
+	Durations bool
 	// pool collects the struct descriptors generated so far so that the same
 	// struct type can be reused at several positions of one type tree.
 	pool *[]TypeDesc
@@ -194,11 +198,13 @@ func (o TypeOpts) avoid(f string) bool { return o.Avoid != nil && o.Avoid[f] }
 var scalarKinds = []string{"bool", "int", "int8", "int16", "int32", "int64", "uint", "uint8", "uint16", "uint32", "uint64", "uintptr",
 	"float32", "float64", "string", "string", "bytes", "number", "raw", "time", "any", "any", "int", "string", "float64", "bool"}
 
-var goFieldNames = []string{"A", "B", "C", "Ab", "AB", "Abc", "X", "Y", "Z", "F1", "Name", "ID", "K", "\u212a", "Xy", "S"}
+var goFieldNames = []string{"A", "B", "C", "Ab", "AB", "Abc", "X", "Y", "Z", "F1", "Name", "ID", "K", "\u212a", "Xy", "S", "Abcdefghijklmnop", "Abcdefghijklmnopq", "Abcdefg"}
 var unexportedNames = []string{"a", "b", "priv"}
 
 var tagPool = []string{"a", "A", "b", "x", "X", "y", "a,omitempty", ",omitempty", ",string", "a,string", ",omitempty,string", "-", "-,", "a b",
-	"<x>&", "\u00e9", "\u017f", "\u212a", "k", "K", "s", "S", `a"b`, ",unknownopt", "name,omitempty,string,extra", "Ab", "ab", "AB", "f1", ",", "ID", "id", "a ", "\u2028"}
+	"<x>&", "\u00e9", "\u017f", "\u212a", "k", "K", "s", "S", `a"b`, ",unknownopt", "name,omitempty,string,extra", "Ab", "ab", "AB", "f1", ",", "ID", "id", "a ", "\u2028",
+	// lengths around the 8- and 16-byte word sizes of the keyset lookup, with case variants
+	"abcdefghijklmnop", "ABCDEFGHIJKLMNOP", "abcdefghijklmno", "abcdefghijklmnopq", "abcdefgh", "ABCDEFGH", "abcdefghi", "abcdefghijklmnop,omitempty"}
 
 var embeddable = []string{"EmbA", "EmbB", "Deep"}
 
@@ -236,6 +242,9 @@ func genLeaf(rt *rapid.T, o TypeOpts) TypeDesc {
 			}
 			return TypeDesc{K: "@" + n}
 		}
+	}
+	if o.Durations && rapid.IntRange(0, 11).Draw(rt, "dur") == 0 {
+		return TypeDesc{K: "duration"}
 	}
 	for {
 		k := rapid.SampledFrom(scalarKinds).Draw(rt, "kind")
